@@ -166,7 +166,7 @@ class StmtMixin:
             if isinstance(obj, ListLoc):
                 n = st.heap.read(obj.key + ".len", obj.owner)
                 kt, _ = znum(k)
-                self.oblige(st, f"safe:index-store-in-range@{getattr(node, 'lineno', '?')}", z3.And(kt >= -n, kt < n), "safety")
+                self.oblige(st, f"safe:index-store-in-range@{self.ntag(node)}", z3.And(kt >= -n, kt < n), "safety")
                 idx = z3.If(kt < 0, kt + n, kt)
                 arr = st.heap.read(obj.key + ".at", obj.owner)
                 self.note_write(obj.key + ".at", obj.owner, st)
@@ -190,7 +190,7 @@ class StmtMixin:
     def st_If(self, s, st):
         def k(v, s1):
             out = []
-            for side, s2 in self.branch(self.truth(v, s1), s1, f"if@{s.lineno}"):
+            for side, s2 in self.branch(self.truth(v, s1), s1, f"if{self.ntag(s)}"):
                 out += self.exec_block(s.body if side else s.orelse, s2)
             return out
         return self._ev(s.test, st, k)
@@ -257,7 +257,8 @@ class StmtMixin:
 
     # ------------------------------------------------------------ for loops
     def st_For(self, s, st):
-        ordinal = self.next_loop_ordinal()
+        t = self.ntag(s)
+        ordinal = int(t[1:]) if t[1:].isdigit() else self.next_loop_ordinal()
         return self._ev(s.iter, st, lambda it, s1: self.run_for(s, it, s1, ordinal))
 
     def next_loop_ordinal(self):
@@ -422,7 +423,7 @@ class StmtMixin:
 
     def assume_clauses(self, st, clauses):
         for name, cl in clauses:
-            st.assume(self.clause_formula(cl))
+            st.assume(self.clause_formula(cl), name=name)
 
     def clause_formula(self, cl):
         from .contracts import al_assume, Bridge
